@@ -27,6 +27,7 @@ import LdkModel.Props.ChanProto
 #print axioms Ldk.C01.fundee_limit_not_accepted_example
 #print axioms Ldk.C01Fee.update_fee_reserve_accepted
 #print axioms Ldk.C01Fee.sender_test_is_peer_reserve
+#print axioms Ldk.C01Fee.receiver_prices_only_the_signed_commitment
 #print axioms Ldk.ChanProto.counters_step_by_one
 #print axioms Ldk.ChanProto.counters
 #print axioms Ldk.ChanProto.at_most_one_outstanding
